@@ -11,4 +11,7 @@ GView == vars
 \* final: nothing left to do for anybody
 Final == Quiet /\ \A t \in Threads : wst[t] # "ready" /\ (nops[t] = MaxOps \/ Menu[t] = {})
 GenFinal == Final => PrintT(<<"SCHED", ToJson(hist)>>)
+\* state cover: one witness (the BFS path) per distinct state of the explorer; the driver keeps the witnesses that
+\* are not a prefix of another one
+GenAll == Len(hist) > 0 => PrintT(<<"SCHED", ToJson(hist)>>)
 ====
